@@ -236,6 +236,36 @@ class World:
         return None
 
     def do_rm(self, op):
+        # (every removal operation leaves a handle: the removed object and what it wrote then, or None)
+        n0 = len(self.removed)
+        out = self._do_rm(op)
+        if not hasattr(self, "rm_handles"):
+            self.rm_handles = []
+        self.rm_handles.append((self.removed[-1], ob.line_text(self.removed[-1]))
+                               if (out.ok and len(self.removed) > n0) else None)
+        return out
+
+    def do_readd_obj(self, op):
+        """the very object an earlier removal took out of the Gfa is added again"""
+        hs = getattr(self, "rm_handles", [])
+        ent = hs[op["rmidx"]] if op["rmidx"] < len(hs) else None
+        v = self.gfa.version
+        # (in a shrunk history the index may point at another removal: the text recorded when the object was
+        # removed says whether it is the line the operation means)
+        try:
+            same = ent is not None and gtext.canon_lines(ent[1], v) == gtext.canon_lines(op["text"], v)
+        except Exception:
+            same = False
+        if not same:
+            self.st.count("op.skipped")
+            return core.Outcome(True, "skipped")
+        hs[op["rmidx"]] = None      # (the object lives on in the Gfa: it is no removed line any more)
+        out = core.call(self.gfa.add_line, ent[0])
+        if out.ok:
+            self.removed = [x for x in self.removed if x is not ent[0]]
+        return out
+
+    def _do_rm(self, op):
         how = op.get("how", "rm")
         if how == "rm" and "id" in op:
             l = self.gfa.line(op["id"])
